@@ -540,6 +540,9 @@ fn run_data(plan: &Value, rec: &mut Rec) {
         muts.push(json!({"m":"key_subst"}));
         if signed.message.is_some() {
             muts.push(json!({"m":"ops_fields"}));
+            for what in ["literal", "whole-message", "last-signature", "one-pass-and-literal"] {
+                muts.push(json!({"m":"msg_extend","what":what}));
+            }
         }
     }
     for m in muts {
@@ -745,6 +748,27 @@ fn run_data_mutation(plan: &Value, rec: &mut Rec, signed: &Signed, content: &Arc
                         }
                     }
                 }
+            }
+            "msg_extend" => {
+                // packets appended behind the complete signed message (not padding / marker, which readers skip)
+                let Some(msg) = &signed.message else { return };
+                let Ok(pk) = deframe(msg) else { return };
+                let mut ext = msg.clone();
+                match jstr(m, "what") {
+                    "literal" => ext.extend_from_slice(&literal_packet(b"appended by the channel")),
+                    "whole-message" => ext.extend_from_slice(msg),
+                    "last-signature" => {
+                        let Some(p) = pk.iter().rev().find(|p| p.tag == 2) else { return };
+                        ext.extend_from_slice(&msg[p.start..p.end]);
+                    }
+                    _ => {
+                        let Some(p) = pk.iter().find(|p| p.tag == 4) else { return };
+                        ext.extend_from_slice(&msg[p.start..p.end]);
+                        ext.extend_from_slice(&literal_packet(b"appended by the channel"));
+                    }
+                }
+                evals += 1;
+                accepted.extend(verify_message(&ext, content, &signed.signers, &Sched::Full, false).into_iter().filter(|x| x.1).map(|x| format!("{} ({} signers)", x.0, signed.signers.len())));
             }
             "ops_fields" => {
                 let Some(msg) = &signed.message else { return };
